@@ -3,3 +3,8 @@
 ;   kind 2: Appender.Write(bytes)    who = appender, what = backing store, extra = length, payload = content
 ;   kind 3: io.Writer.Write / (*os.File).Write on a sink
 (declare-datatypes ((Trace 0)) (((tnil) (tsnoc (tinit Trace) (tkind Int) (ta Int) (tb Int) (tc Int) (ts Str)))))
+;   kind 9: channel send   10: go statement   11: channel receive   12: channel close
+(declare-fun tlen (Trace) Int)
+(assert (= (tlen tnil) 0))
+(assert (forall ((t Trace) (k Int) (a Int) (b Int) (c Int) (s Str)) (! (= (tlen (tsnoc t k a b c s)) (+ (tlen t) 1)) :pattern ((tsnoc t k a b c s)))))
+(assert (forall ((t Trace)) (! (>= (tlen t) 0) :pattern ((tlen t)))))
